@@ -27,6 +27,7 @@ import ClairModel.Proofs.CvssEnv2
 import ClairModel.Proofs.CvssOsvRaw
 import ClairModel.Proofs.CvssOsvRaw2
 import ClairModel.Proofs.CvssV4Tab
+import ClairModel.Proofs.CvssEnrich
 
 -- every variable of a property statement is bound explicitly: a misspelt name is an error, not a new variable
 set_option autoImplicit false
@@ -442,5 +443,47 @@ theorem osv_severity_raw_input_v2 {s : Bytes} {v : Vec} (h : parse2 s = some v) 
     ∃ k, score2 (baseOf2 v) = some k ∧ osv2 s = inBands osvDocV2 k := by
   obtain ⟨k, h1, h2⟩ := osv_severity_eq_base_band_v2 h
   exact ⟨k, h1, by rw [osv2_raw h]; exact h2⟩
+
+/-! ### enricher/cvss: what is forwarded (the package holds no vector logic) -/
+
+section Enricher
+open ClairModel.CvssEnrich
+
+/-- every string `enricher.CVERegexp.FindAllString` reports in a text — the
+    model scans leftmost, non-overlapping, the last group greedy — has the form
+    `(?i:cve)[-_][0-9]{4}[-_][0-9]{4,}` -/
+theorem enricher_matches_are_cve_ids (text : CvssEnrich.Bytes) : ∀ m ∈ findAll text, IsCve m :=
+  findAll_sound text
+
+/-- the query `Enrich` sends for a vulnerability holds exactly the ids found in
+    its Description, Name and Links (each once: the set `t`, then `sort.Strings`) -/
+theorem enricher_query_is_the_ids_of_the_texts (v : Vuln) (t : CvssEnrich.Bytes) :
+    t ∈ tagsOf v ↔ ∃ txt ∈ v.texts, t ∈ findAll txt :=
+  mem_tagsOf v t
+
+/-- the key of the per-call cache (`strings.Join(ts, "_")`) determines the
+    query although ids may contain the joining character: two lists of CVE ids
+    with the same key are equal -/
+theorem enricher_cache_key_determines_query (a b : List CvssEnrich.Bytes) (ha : ∀ t ∈ a, IsCve t)
+    (hb : ∀ t ∈ b, IsCve t) (h : joinKey a = joinKey b) : a = b :=
+  joinKey_inj a b ha hb h
+
+/-- hence the cache is transparent: for any getter and any iteration order of
+    the report's map, `Enrich` forwards under every vulnerability id exactly
+    the blobs of the getter's answer to that vulnerability's ids — nothing for
+    a vulnerability without an id or with an empty answer, an error iff a
+    query fails -/
+theorem enricher_forwards_the_getters_answer (g : Getter) (vs : List Vuln) :
+    (enrich g vs).map (·.out) = enrichSpec g vs :=
+  enrich_eq_spec g vs
+
+/-- v3 over v2: `WriteCVSS` forwards exactly the items of a year feed that
+    carry a `cvssV3` member — tag = the item's CVE id, enrichment = the member,
+    unchanged — so an item with v2 metrics only is never forwarded -/
+theorem enricher_feed_forwards_exactly_v3_items (items : List Item) (id raw : CvssEnrich.Bytes) :
+    (id, raw) ∈ writeCVSS items ↔ ∃ it ∈ items, it.id = id ∧ it.v3 = some raw :=
+  mem_writeCVSS items id raw
+
+end Enricher
 
 end ClairModel.Props.C18
